@@ -33,7 +33,7 @@ class C20(pure.Spec):
                 "C20_reachable_inv", "C20_buf_contract", "C20_cstep_variants", "C20_cstep_ok"]
     crate = "pure"
     binary = "vh-pure"
-    design_ref = "DESIGN.md §4 C20"
+    design_ref = "DESIGN.md §5 C20"
     rule = ("kind 1: LongChain operation sequences (bounded-exhaustive over a 37-op alphabet up to depth 2 (quick) / 3 "
             "(thorough), random sequences up to 40 ops with arguments at, inside and one past every chunk boundary, "
             "empty segments, huge arguments, mixed Temporary/Static chunks); after every call the result, len(), "
